@@ -206,14 +206,23 @@ def write_entropy_image(bw, rng, width, height, style, green_max=255, red_syms=N
     else:
         bw.put(0, 1)
     cache_len = (1 << cache_bits) if cache_bits else 0
-    deep = style in ("deep", "extrabits") or rng.random() < 0.3
+    deep = style in ("deep", "extrabits", "arbdeep") or rng.random() < 0.3
     maxlen = 15 if deep else rng.choice([3, 5, 8, 11, 15])
 
     def pick(lo, hi, kmax):
         k = rng.randint(1, max(1, min(kmax, hi - lo + 1)))
         return rng.sample(range(lo, hi + 1), k)
 
-    if style == "extrabits":
+    if style == "arbdeep":
+        # red/blue/alpha codes of depth 15 against a shallow green code and a single-symbol distance code: one literal pixel
+        # costs up to green + 45 bits, more than a back-reference's green + 36 + dist; the read-ahead must cover it
+        lit = rng.sample(range(0, green_max + 1), min(green_max + 1, rng.choice([2, 2, 3, 4])))
+        lens_syms = [256 + rng.randint(0, 3)] if rng.random() < .3 else []
+        csyms = []
+        dsyms = [rng.randint(0, 39)]
+        rs = red_syms if red_syms is not None else rng.sample(range(256), rng.choice([16, 40, 120]))
+        bs, as_ = rng.sample(range(256), rng.choice([16, 40, 120])), rng.sample(range(256), rng.choice([16, 40, 120]))
+    elif style == "extrabits":
         lit = [rng.randint(0, green_max)]
         lens_syms = sorted(set([256 + rng.choice([20, 21, 22, 23])] + ([256 + rng.randint(0, 23)] if rng.random() < .5 else [])))
         csyms = []
@@ -290,9 +299,14 @@ def write_entropy_image(bw, rng, width, height, style, green_max=255, red_syms=N
         if kind == "lit":
             g = rng.choice(lit)
             bw.code(G[g])
-            bw.code(R[rng.choice(rs)])
-            bw.code(B[rng.choice(bs)])
-            bw.code(A[rng.choice(as_)])
+            if style == "arbdeep" and rng.random() < .6:
+                bw.code(R[max(rs, key=lambda x: len(R[x]))])
+                bw.code(B[max(bs, key=lambda x: len(B[x]))])
+                bw.code(A[max(as_, key=lambda x: len(A[x]))])
+            else:
+                bw.code(R[rng.choice(rs)])
+                bw.code(B[rng.choice(bs)])
+                bw.code(A[rng.choice(as_)])
             idx = n if (glen + arb == 0) else idx + 1
         npx_tokens += 1
         max_iter_bits = max(max_iter_bits, len(bw.bits) - start)
@@ -321,8 +335,12 @@ def build_lossless(rng, style="plain", pixel_budget=3000):
         width = W
     else:
         W, H = rng.randint(1, 300), rng.randint(1, 300)
+        if style == "arbdeep":
+            W, H = rng.randint(100, 300), rng.randint(100, 300)
         width = W
         order = rng.sample([0, 1, 2, 3], rng.choice([0, 1, 1, 2, 3, 4]))
+        if style == "arbdeep" and 1 not in order and 0 not in order:
+            order = [1] + order
         for t in order:
             bw.put(1, 1)
             bw.put(t, 2)
